@@ -54,6 +54,15 @@ def new_acceptor(ae, dul, max_len):
     base.__init__ = lambda self, *a, **k: None
     try:
         acc = asceprovider.AssociationAcceptor(None, ('127.0.0.1', 0), ae, max_len)
+    except Exception:  # noqa  (a constructor with another signature: build the object as the other drivers do)
+        acc = object.__new__(asceprovider.AssociationAcceptor)
+        acc.ae = ae
+        acc.max_pdu_length = max_len
+        acc.sop_classes_as_scp = {}
+        acc.accepted_contexts = {}
+        acc.remote_ae = b''
+        acc.is_killed = False
+        acc.association_established = False
     finally:
         dulprovider.DULServiceProvider, base.__init__ = saved
     acc.dul = dul
